@@ -172,6 +172,21 @@ func fieldOf(v *Sym, f *types.Var, idx int, t types.Type) *Sym {
 
 // storeCell writes a cell, dropping component cells of the same object and havocking cells that may alias.
 func (tr *Tracer) storeCell(st *state, addr, val *Sym) {
+	// a whole embedded struct assigned at once rewrites the promoted fields, whose cells are named after the outer object
+	if addr.Kind == KFieldAddr && addr.Field != nil && addr.Field.Embedded() {
+		if est, isSt := addr.Field.Type().Underlying().(*types.Struct); isSt {
+			owner := addr.Args[0].Key()
+			for ck, c := range st.store {
+				if c.addr.Kind == KFieldAddr && c.addr.Args[0].Key() == owner && c.addr.Field != nil {
+					for i := 0; i < est.NumFields(); i++ {
+						if sameField(est.Field(i), c.addr.Field) {
+							delete(st.store, ck)
+						}
+					}
+				}
+			}
+		}
+	}
 	k := addr.Key()
 	prefix1, prefix2 := "&"+k+".", "&"+k+"["
 	for ck, c := range st.store {
